@@ -451,7 +451,34 @@ def pf_caps_dict(D, T=4, wacc=False, tz=None):
     return Shape(pf, tg, prices_for(D, ['p', 'r'], T))
 
 
-PORTFOLIOS = dict(names=pf_names, caps_dict=pf_caps_dict, uncoupled=pf_uncoupled, caps_ts=pf_caps_ts, windows=pf_windows, contract_storage=pf_contract_storage, two_node=pf_two_node, multicommodity=pf_multicommodity,
+def pf_mixed_wacc(D, T=3, freq='h', unit='h'):
+    """assets with different discount rates sharing one grid; assets WITHOUT discounting are handled after discounted ones"""
+    eao = lift.import_eao()
+    tg = grid(T, freq, unit)
+    nA, nB = nodes('A', 'B')
+    m1 = mk_market(D, 'm1', nA, T, 'p', ec=True, wacc=D('wacc1', lo=0))
+    m0 = mk_market(D, 'm0', nA, T, 'q', wacc=0)
+    tr = mk_transport(D, 'tr', nA, nB, eff=0.5, wacc=D('wacc2', lo=0))
+    st = mk_storage(D, 'sto', nB, eff=0.75, wacc=0)
+    mB = mk_market(D, 'mB', nB, T, 'r', wacc=D('wacc1', lo=0))
+    pf = eao.portfolio.Portfolio([m1, m0, tr, st, mB])
+    return Shape(pf, tg, prices_for(D, ['p', 'q', 'r'], T))
+
+
+def pf_alternating(D, T=4):
+    """node A is active only in the first half, node B only in the second half of the horizon (equal sizes)"""
+    eao = lift.import_eao()
+    tg = grid(T)
+    nA, nB = nodes('A', 'B')
+    h_ = T // 2
+    # equal problem sizes in both halves, different content: the active transport (and its efficiency) changes
+    assets = [mk_market(D, 'mA', nA, T, 'p', ec=True), mk_transport(D, 't1', nA, nB, eff=0.5, win=(0, h_), tg=tg),
+              mk_transport(D, 't2', nA, nB, eff=0.75, win=(h_, T), tg=tg), mk_market(D, 'mB', nB, T, 'q')]
+    pf = eao.portfolio.Portfolio(assets)
+    return Shape(pf, tg, prices_for(D, ['p', 'q'], T))
+
+
+PORTFOLIOS = dict(names=pf_names, caps_dict=pf_caps_dict, mixed_wacc=pf_mixed_wacc, alternating=pf_alternating, uncoupled=pf_uncoupled, caps_ts=pf_caps_ts, windows=pf_windows, contract_storage=pf_contract_storage, two_node=pf_two_node, multicommodity=pf_multicommodity,
                   contract_take=pf_contract_take, plant=pf_plant, coarse=pf_coarse, periodic=pf_periodic,
                   orderbook=pf_orderbook, scaled=pf_scaled, structured=pf_structured, ext_transport=pf_ext_transport)
 
